@@ -163,7 +163,7 @@ func (p *peer) handleStateTransition(i int, t stateTransition) {
 			localID := p.id
 			dominant := localID > remoteID ||
 				(localID == remoteID) && (p.config.LocalAS > p.config.RemoteAS)
-			if dominant && i == out {
+			if dominant == (i == out) {
 				verifEvent("m.collide.begin", p, i)
 				verifPoint("collide.select")
 				// attempt to disable other FSM
